@@ -288,7 +288,9 @@ func c17Rate(r *Run, concurrent, aligned bool) {
 						_, err = l.IOHandler(context.Background(), make([]byte, tok), func(ctx context.Context, request []byte) ([]byte, error) { return nil, downstream() })
 					case "invoke":
 						tok = 1
-						_, err = l.InvokeHandler(context.Background(), "f", nil, func(ctx context.Context, name string, args []interface{}) ([]interface{}, error) { return nil, downstream() })
+						_, err = l.InvokeHandler(context.Background(), "f", nil, func(ctx context.Context, name string, args []interface{}) ([]interface{}, error) {
+							return nil, downstream()
+						})
 					}
 				}()
 				now := sim.Now()
